@@ -1213,6 +1213,7 @@ let rec texpr_of = function
   | L [A "m"; k; v] -> M.TMap (texpr_of k, texpr_of v)
   | L [A "c"; v] -> M.TChan (texpr_of v)
   | L [A "l"; A h] -> M.TBasicLit (bytes_of_hex h)
+  | L [A "x"; x] -> M.TIndex (texpr_of x)
   | _ -> failwith "ast: texpr"
 let ast_fields_of = function
   | L l -> List.map (function L [A n; t] -> { M.f_names = nat_of_int (int_of_string n); f_type = texpr_of t }
@@ -1230,78 +1231,133 @@ let rec node_of = function
   | _ -> failwith "ast: node"
 
 let op_ast r = function
-  | [src; lines; expect; feat; tree; results] ->
+  | [src; lines; expect; feat; names; tree; results] ->
     let contains_sub s sub =
       let n = String.length s and m = String.length sub in
       let rec go i = i + m <= n && (String.sub s i m = sub || go (i + 1)) in go 0 in
+    let src_s = unhex src in
     let ls = Array.of_list (List.map int_of_string (String.split_on_char ',' lines)) in
-    let ex = Array.of_list (String.split_on_char ',' expect) and rs = Array.of_list (String.split_on_char ';' results) in
+    let ex = Array.of_list (String.split_on_char ',' expect) in
+    let ns = Array.of_list (List.map (String.split_on_char '|') (String.split_on_char ',' names)) in
+    let rs = Array.of_list (List.map (String.split_on_char '|') (String.split_on_char ';' results)) in
     List.iter (tag r) (String.split_on_char ',' feat);
-    if Array.length ex <> Array.length ls || Array.length rs <> Array.length ls then failwith "ast: lengths";
-    if Array.exists (fun x -> x = "PANIC") rs then flag r "impl:panic";
+    if Array.length ex <> Array.length ls || Array.length rs <> Array.length ls || Array.length ns <> Array.length ls then failwith "ast: lengths";
+    Array.iteri (fun i n -> if List.length n <> List.length rs.(i) then failwith "ast: names/results") ns;
+    let pairs = Array.fold_left (fun a n -> a + List.length n) 0 ns in
+    if Array.exists (List.exists (fun x -> x = "PANIC")) rs then flag r "impl:panic";
     if tree = "-" then begin
       (* loadFile fails: nothing is parsed, every frame of the file stays unaugmented *)
       tag r "parse-error";
-      Array.iter (fun x -> if x <> "E:parse" && x <> "PANIC" then flag r "corr:ast-select") rs
+      Array.iter (List.iter (fun x -> if x <> "E:parse" && x <> "PANIC" then flag r "corr:ast-select")) rs
     end else begin
       let root = node_of (parse_sx tree) in
-      let offs = M.line_offsets (bytes_of_string (unhex src)) in
+      let offs = M.line_offsets (bytes_of_string src_s) in
       (* the hypothesis of C19_select_*: validated on every parsed file *)
       if M.wf_file root then tag r "wf" else flag r "corr:ast-wf";
-      (match root with M.Node (_, _, cs) ->
-        List.iter (function
-          | M.Node (_, M.KFuncDecl d, _) ->
-            tag r "funcdecl";
-            (match d.M.fd_recv with
-             | Some [{ M.f_type = M.TStar _ }] -> tag r "recv:pointer"
-             | Some [_] -> tag r "recv:value"
-             | Some _ -> tag r "recv:not-one-field"
-             | None -> ())
-          | _ -> ()) cs);
+      let decls = match root with M.Node (_, _, cs) ->
+        List.filter_map (function M.Node (p, M.KFuncDecl d, _) -> Some (int_of_n p, d) | _ -> None) cs in
+      List.iter (fun (_, d) ->
+        tag r "funcdecl";
+        match d.M.fd_recv with
+        | Some [{ M.f_type = M.TStar _ }] -> tag r "recv:pointer"
+        | Some [_] -> tag r "recv:value"
+        | Some _ -> tag r "recv:not-one-field"
+        | None -> ()) decls;
+      (* independent of the model: byte offset of the first byte of every line, largest Pos of the tree *)
+      let line_start =
+        let acc = ref [0; 0] in
+        String.iteri (fun i c -> if c = '\n' then acc := (i + 1) :: !acc) src_s;
+        Array.of_list (List.rev !acc) in
+      let rec max_pos (M.Node (p, _, ch)) = List.fold_left (fun a c -> max a (max_pos c)) (int_of_n p) ch in
+      let maxp = max_pos root in
+      (* what a traceback name says: strip "[...]", split at the last dot *)
+      let strip_tp s =
+        let b = Buffer.create (String.length s) in
+        let i = ref 0 and n = String.length s in
+        while !i < n do
+          if !i + 5 <= n && String.sub s !i 5 = "[...]" then i := !i + 5
+          else (Buffer.add_char b s.[!i]; incr i)
+        done;
+        Buffer.contents b in
+      let split_name f =
+        let f = strip_tp f in
+        match String.rindex_opt f '.' with
+        | Some i -> (String.sub f 0 i, String.sub f (i + 1) (String.length f - i - 1))
+        | None -> ("", f) in
+      (* the receiver a declaration is printed with: None = plain function, Some None = no compilable receiver *)
+      let recv_text (d : M.funcdecl) : string option option =
+        match d.M.fd_recv with
+        | None -> None
+        | Some [fl] ->
+          let ptr, t = (match fl.M.f_type with M.TStar x -> (true, x) | t -> (false, t)) in
+          let t = (match t with M.TIndex x -> x | t -> t) in
+          (match t with
+           | M.TIdent nm -> let b = string_of_bytes nm in Some (Some (if ptr then "(*" ^ b ^ ")" else b))
+           | _ -> Some None)
+        | Some _ -> Some None in
       (* "F:pos:name:types:ell" -> "F:pos:name" *)
       let sel s = if starts_with s "F:" then (match String.split_on_char ':' s with a :: b :: c :: _ -> a ^ ":" ^ b ^ ":" ^ c | _ -> s) else s in
       Array.iteri (fun i l ->
-        let ir = rs.(i) in
-        let ms = match M.source_types offs root (nat_of_int l) with
-          | M.Panic _ -> "PANIC"
-          | M.Ok M.SrcErr -> "E:overline"
-          | M.Ok M.SrcNone -> "N"
-          | M.Ok (M.SrcTypes (p, nm, ts, ell)) ->
-            Printf.sprintf "F:%s:%s:%s:%s" (string_of_n p) (hex_of_bytes nm)
-              (if ts = [] then "-" else String.concat "," (List.map hex_of_bytes ts)) (if ell then "1" else "0") in
-        if ms <> ir then begin
-          flag r (if sel ms <> sel ir then "corr:ast-select" else "corr:ast-types");
-          if r.detail = "" then r.detail <- Printf.sprintf "line %d: model %s impl %s" l ms ir
-        end;
-        (match ms with
-         | "PANIC" -> tag r "panic" | "E:overline" -> tag r "err" | "N" -> tag r "none"
-         | _ ->
-           tag r "found";
-           if String.length ms > 2 && String.sub ms (String.length ms - 2) 2 = ":1" then tag r "variadic";
-           if contains_sub ms (String.sub (hex "<unknown>") 1 18) then tag r "unknown-type");
-        (* implementation-level oracle: the function the generator knows to enclose the line *)
         let e = ex.(i) in
-        if e <> "-" && e.[0] = 'c' then begin
-          (* inside a function literal: only the literal's frames carry this line, no declaration describes them *)
+        let cls = if e = "-" then '-' else e.[0] in
+        List.iter2 (fun kn ir ->
+          let kind = kn.[0] and fn = unhex (String.sub kn 1 (String.length kn - 1)) in
+          (match kind with
+           | 'e' -> tag r "name:enclosing"; if contains_sub fn "[...]" then tag r "name:generic";
+             if contains_sub fn "(*" then tag r "name:ptr-method" else if String.contains fn '.' then tag r "name:value-method"
+           | 'l' -> tag r "name:closure" | 'p' -> tag r "name:prev" | 'n' -> tag r "name:next"
+           | 'z' -> tag r "name:none" | _ -> tag r "name:hostile");
+          (* ---- model ---- *)
+          let ms = match M.source_types offs root (nat_of_int l) (bytes_of_string fn) with
+            | M.Panic _ -> "PANIC"
+            | M.Ok M.SrcErr -> "E:overline"
+            | M.Ok M.SrcNone -> "N"
+            | M.Ok (M.SrcTypes (p, nm, ts, ell)) ->
+              Printf.sprintf "F:%s:%s:%s:%s" (string_of_n p) (hex_of_bytes nm)
+                (if ts = [] then "-" else String.concat "," (List.map hex_of_bytes ts)) (if ell then "1" else "0") in
+          if ms <> ir then begin
+            flag r (if sel ms <> sel ir then "corr:ast-select" else "corr:ast-types");
+            if r.detail = "" then r.detail <- Printf.sprintf "line %d name %S: model %s impl %s" l fn ms ir
+          end;
+          (match ms with
+           | "PANIC" -> tag r "panic" | "E:overline" -> tag r "err" | "N" -> tag r "none"
+           | _ ->
+             tag r "found";
+             if String.length ms > 2 && String.sub ms (String.length ms - 2) 2 = ":1" then tag r "variadic";
+             if contains_sub ms (String.sub (hex "<unknown>") 1 18) then tag r "unknown-type");
+          (* ---- oracles on the implementation alone ---- *)
           if starts_with ir "F:" then begin
-            flag r "prop:C19:wrong-function:func-literal";
-            if r.detail = "" then r.detail <- Printf.sprintf "line %d: in a function literal, selected %s" l (sel ir)
-          end else if ir = "N" then tag r "unaugmented:c"
-        end else if e <> "-" then begin
-          let want = "F:" ^ String.sub e 1 (String.length e - 1) in
-          if starts_with ir "F:" then begin
-            if sel ir = want then tag r ("enclosing-ok:" ^ String.make 1 e.[0])
-            else begin
-              flag r (match e.[0] with
-                | 'b' -> "prop:C19:wrong-function"
-                | 'o' -> "prop:C19:wrong-function:one-line-func"
-                | _ -> "prop:C19:wrong-function:func-keyword-line");
-              if r.detail = "" then r.detail <- Printf.sprintf "line %d: enclosing %s selected %s" l want (sel ir)
+            (* whatever the line: the declaration used must be the one the frame names *)
+            let pos, dname = (match String.split_on_char ':' ir with _ :: p :: n :: _ -> (int_of_string p, unhex n) | _ -> failwith "ast: result") in
+            let qrecv, qname = split_name fn in
+            let ok = match List.assoc_opt pos decls with
+              | None -> false
+              | Some d ->
+                string_of_bytes d.M.fd_name = dname && dname = qname &&
+                (match recv_text d with
+                 | None -> qrecv = ""
+                 | Some (Some t) -> qrecv = t
+                 | Some None -> false) in
+            if not ok then begin
+              flag r "prop:C19:wrong-function";
+              if r.detail = "" then r.detail <- Printf.sprintf "line %d: frame %S rendered with %s" l fn (sel ir)
+            end else tag r (Printf.sprintf "match-ok:%c" cls)
+          end else if ir = "N" && (kind = 'e' || kind = 'l') then tag r (Printf.sprintf "unaugmented:%c" cls);
+          (* the repair must not cost legitimate augmentation: a line after the func keyword line, up to the closing
+             brace, outside function literals, queried with the traceback name of its declaration, finds it -- unless
+             no node of the file starts at or after the line (the closing lines of the last declaration) *)
+          if cls = 'b' && kind = 'e' then begin
+            let want = "F:" ^ String.sub e 1 (String.length e - 1) in
+            let beyond = l < Array.length line_start && maxp < line_start.(l) in
+            if beyond then tag r "last-decl-closing-lines"
+            else if sel ir <> want then begin
+              flag r "prop:C19:enclosing-not-augmented";
+              if r.detail = "" then r.detail <- Printf.sprintf "line %d: frame %S wants %s got %s" l fn want (sel ir)
             end
-          end else if ir = "N" then tag r ("unaugmented:" ^ String.make 1 e.[0])
-        end) ls;
-      r.detail <- Printf.sprintf "pairs=%d%s" (Array.length ls) (if r.detail = "" then "" else "; " ^ r.detail)
-    end
+          end;
+          ()) ns.(i) rs.(i)) ls
+    end;
+    r.detail <- Printf.sprintf "pairs=%d%s" pairs (if r.detail = "" then "" else "; " ^ r.detail)
   | _ -> failwith "ast: fields"
 
 let () =
